@@ -146,6 +146,12 @@ def run_driver(exe, execs, tag, timeout=900, block_ms=25, max_hangs=1000):
                     got += 1
         if rc == 0:
             break
+        if sum(1 for r in results.values() if r.get("hang") or r.get("stuck")) >= 25:
+            # enough evidence that executions do not terminate; the remaining ones are not run (reported as not executed)
+            for i in pending:
+                if i not in results:
+                    results[i] = {"id": i, "skipped": True, "events": []}
+            break
         # the driver stopped early (stuck execution -> _exit(3), or killed): skip what was reported and go on
         done = set(results)
         nxt = [i for i in pending if i not in done]
@@ -220,6 +226,8 @@ def validate_and_report(chk, execs, results, tag, backend, check_mech):
         r = results.get(i)
         if r is None:
             raise InfraError("no result for execution %d of %s" % (i, tag))
+        if r.get("skipped"):
+            continue      # not executed (the plan was cut short after repeated hangs): neither accepted nor rejected
         ctraces.append(contract_trace(ex, r))
         idx.append(i)
     acc, rej, stats = trace.validate(os.path.join(SPEC, "AsyncLoopContractTrace.tla"), os.path.join(SPEC, "AsyncLoopContractTrace.cfg"),
@@ -227,8 +235,8 @@ def validate_and_report(chk, execs, results, tag, backend, check_mech):
     chk.cov["traces_validated_against_impl"] += acc + len(rej)
     chk.cov["contract_events_validated"] = chk.cov.get("contract_events_validated", 0) + stats["events"]
     for rj in rej:
-        i = rj["exec"]
-        ev = ctraces[i]
+        i = idx[rj["exec"]]
+        ev = ctraces[rj["exec"]]
         cls = classify(ev, rj["line"])
         sig = "%s/%s/%s/contract-rejected" % (SIG, execs[i]["method"], cls)
         what = ("%s launch, %s backend, mode %s, script %s: contract event %d (%s) is not allowed by AsyncLoopContract; events: %s"
@@ -240,7 +248,7 @@ def validate_and_report(chk, execs, results, tag, backend, check_mech):
     mech_ok = 0
     if check_mech:
         for method in ("THREAD", "TASK"):
-            sel = [i for i, ex in enumerate(execs) if ex["method"] == method and not results[i].get("stuck") and not results[i].get("hang")]
+            sel = [i for i, ex in enumerate(execs) if ex["method"] == method and not results[i].get("stuck") and not results[i].get("hang") and not results[i].get("skipped")]
             if not sel:
                 continue
             mt = [mech_trace(execs[i], results[i]) for i in sel]
@@ -332,7 +340,7 @@ def run(chk, replay=None):
         methods = ["THREAD"] if backend == "Debug" else ["THREAD", "TASK"]
         execs = [{"method": rnd.choice(methods), "script": rand_script(rnd, 6), "mode": "free", "seed": rnd.randint(1, 10 ** 6), "sched": [], "settle_ms": 6000}
                  for _ in range(nfree)]
-        res = run_driver(bexe, execs, "c03-free-" + backend, timeout=180, max_hangs=2)
+        res = run_driver(bexe, execs, "c03-free-" + backend, timeout=90, max_hangs=2)
         execs = [e for i, e in enumerate(execs) if not res[i].get("skipped")]
         res = {k: v for k, v in enumerate(r for _, r in sorted(res.items()) if not r.get("skipped"))}
         nfree_run = len(execs)
